@@ -570,7 +570,150 @@ def field_sweeps(bases, fl, ifields, rng, thorough):
     return cross, sweeps
 
 
-def encodings(subj, rng, thorough, budget, ifields=None):
+# ---------------------------------------------------------------------------------------------------------
+# structured-looking contents of variable-length / bytes / text members, in combination with raw enumeration values
+def framed(mtype, payload, sync=b'.1'):
+    """a complete framed message (24-byte header with a valid CRC + payload), written with struct"""
+    rest = struct.pack('<BBHIII', 2, 0, mtype, 7, len(payload), 0xFFFFFFFF) + payload
+    return sync + b'\0\0' + struct.pack('<I', zlib.crc32(rest) & 0xFFFFFFFF) + rest
+
+
+def content_pool(b, fl):
+    """contents that look like something to a parser or to glue code around it: the framing sync bytes '.1', the
+    offset form '/2' the device logs them as, near misses of both, complete framed messages in both forms, NULs at the
+    start / inside / at the end, text that is not UTF-8 or is cut inside a multi-byte character, valid multi-byte
+    text, the preambles of other protocols, and the class's own encoding (its first two bytes, its fixed part, all of
+    it) nested in itself."""
+    msg = framed(13, struct.pack('<H2x', 10000))
+    pool = [b'.1', b'/2', b'.1\0\0', b'/2\0\0', b'.1abc', b'/2abc', b'.', b'/', b'1.', b'.2', b'/1', b'-0', b'03', b'..11', b'x.1', b'x/2',
+            msg, b'/2' + msg[2:], msg[:24], b'/2' + msg[2:24],
+            b'\0', b'\0\0\0', b'a\0b', b'ab\0', b'\0ab', b'ab\0\0cd\0',
+            b'\xff', b'\xff\xfe', b'\xc3', b'\xe2\x82', b'\x80abc', b'ab\xc3', b'\xc3\xa9', '\u20ac1'.encode('utf8'), b'\xed\xa0\x80', b'\xf8\x88',
+            b'\xd3\x00\x13', b'$GPGGA,', b'\r\n', b'\xb5b', b'[', b'%s%n', b'\x7f', b' ', b'\t.1']
+    own = [bytes(b[:2]), bytes(b[:fl]), bytes(b)]
+    seen, out = set(), []
+    for c in pool + [x for x in own if x]:
+        if c not in seen:
+            seen.add(c)
+            out.append(c)
+    return out
+
+
+def enum_raw_values(members, w, rng, thorough):
+    """raw values for an enumeration-typed field: defined ones (all of a small enumeration, otherwise the extremes and a
+    sample) and unrecognized ones below the smallest, between defined ones (both edges of every gap, capped), directly
+    above the largest, and at the top of the integer's range."""
+    top = 1 << (8 * w)
+    ms = sorted(set(int(m) for m in members if 0 <= int(m) < top))
+    vals = []
+    if len(ms) <= (16 if thorough else 8):
+        vals += ms
+    elif ms:
+        vals += [ms[0], ms[-1]] + rng.sample(ms[1:-1], min(len(ms) - 2, 6 if thorough else 3))
+    unk = []
+    if ms:
+        if ms[0] > 0:
+            unk += [ms[0] - 1, 0]
+        gaps = []
+        for a, c in zip(ms, ms[1:]):
+            if c - a > 1:
+                gaps += [a + 1, c - 1]
+        if len(gaps) > (12 if thorough else 4):
+            gaps = gaps[:2] + rng.sample(gaps[2:], (10 if thorough else 2))
+        unk += gaps
+        unk += [ms[-1] + 1, ms[-1] + 2]
+    unk += [(top >> 1) - 1, top >> 1, top - 2, top - 1]
+    ms_set = set(ms)
+    for v in unk:
+        if 0 <= v < top and v not in ms_set and v not in vals:
+            vals.append(v)
+    return vals
+
+
+def var_segments(name, b, fl):
+    """(start, length) of the variable-length members of encoding b of a class with a variable part."""
+    if fl is None or len(b) < fl:
+        return []
+    if name == 'VersionInfoMessage':
+        ls, pos, out = list(b[8:12]), fl, []
+        for n in ls:
+            out.append((pos, n))
+            pos += n
+        return [s for s in out if s[0] + s[1] <= len(b)]
+    if name == 'DeviceIDMessage':
+        ls, pos, out = list(b[9:12]), fl, []
+        for n in ls:
+            out.append((pos, n))
+            pos += n
+        return [s for s in out if s[0] + s[1] <= len(b)]
+    if name in ('SetConfigMessage', 'ConfigResponseMessage'):      # plain sub-payload / interface sub-payload after its 8-byte header
+        return [(fl, len(b) - fl)] + ([(fl + 8, len(b) - fl - 8)] if len(b) > fl + 8 else [])
+    if name in ('GNSSSatelliteMessage', 'SupportedIOInterfacesMessage', 'MessageRateResponse', 'GetConfigMessage'):
+        return []                                                   # arrays of records, no free-form member
+    return [(fl, len(b) - fl)]
+
+
+def structured(subj, bases, flen, hints, rng, thorough):
+    """Encodings whose bytes / text members hold content_pool() values, alone and combined with enum_raw_values() of
+    every enumeration-typed field of the fixed part (one field at a time with every value, and all fields at once).
+    hints = {'enums': [(offset, width, kind, members)], 'segments': [(offset, length)]} from the layout descriptor
+    (segments: fixed-length bytes / text members at static offsets); variable-length members come from var_segments()."""
+    hints = hints or {}
+    name = subj.name
+    enums = list(hints.get('enums') or [])
+    # (segment length, base, start) of every member that can hold content
+    slots = {}
+    for b in bases:
+        segs = var_segments(name, b, flen) if flen is not None else []
+        segs = segs + [s for s in (hints.get('segments') or []) if s[0] + s[1] <= len(b) and (flen is None or s[0] + s[1] <= flen)]
+        for j, (s, n) in enumerate(segs):
+            slots.setdefault(j, []).append((n, b, s))
+    spliced, seen = [], set(bases)
+
+    def add(lst, m):
+        m = bytes(m)
+        if m not in seen:
+            seen.add(m)
+            lst.append(m)
+    for j in sorted(slots):
+        cands = sorted(slots[j], key=lambda x: x[0])
+        for c in content_pool(cands[-1][1], flen if flen is not None else min(len(cands[-1][1]), 24)):
+            fit = [x for x in cands if x[0] >= len(c)]
+            if not fit:
+                continue
+            picks = [fit[0], fit[-1]] if fit[-1][0] != fit[0][0] else [fit[0]]
+            if thorough and len(fit) > 2:
+                picks.append(rng.choice(fit[1:-1]))
+            for n, b, s in picks:
+                add(spliced, b[:s] + c + b[s + len(c):])                       # at the start of the member
+                if n > len(c):
+                    add(spliced, b[:s + n - len(c)] + c + b[s + n:])             # at its end
+    if not spliced:          # no bytes / text member: the enumeration fields alone are field_sweeps()' matter
+        return []
+    crossed = []
+    if enums:
+        vals = [enum_raw_values(ms, w, rng, thorough) for (_, w, _, ms) in enums]
+        for m in spliced:
+            for (off, w, _, _), vs in zip(enums, vals):
+                if off + w > len(m):
+                    continue
+                for v in vs:
+                    add(crossed, m[:off] + v.to_bytes(w, 'little') + m[off + w:])
+            if len(enums) > 1:
+                for _ in range(2):
+                    x = bytearray(m)
+                    for (off, w, _, _), vs in zip(enums, vals):
+                        if off + w <= len(x):
+                            x[off:off + w] = rng.choice(vs).to_bytes(w, 'little')
+                    add(crossed, x)
+    cap = 4000 if thorough else 700
+    if len(crossed) > cap:
+        rng.shuffle(crossed)
+        crossed = crossed[:cap]
+    return spliced + crossed
+
+
+def encodings(subj, rng, thorough, budget, ifields=None, hints=None):
     """b0 candidates for a subject: valid encodings, each byte of the fixed part set to boundary values one at a
     time, random multi-byte mutations, wholly random fixed parts; integer fields as bit sets (field_sweeps)."""
     bases = base_encodings(subj, rng, thorough)
@@ -616,7 +759,9 @@ def encodings(subj, rng, thorough, budget, ifields=None):
         rest = muts[len(keep):]
         rng.shuffle(rest)
         muts = keep[:budget * 2 // 3] + rest[:budget - min(len(keep), budget * 2 // 3)]
-    return out + muts + sweeps
+    # bytes / text members with structured-looking contents x raw enumeration values (own random stream, appended last)
+    extra = structured(subj, bases, flen, hints, random.Random(frng.random()), thorough)
+    return out + muts + sweeps + extra
 
 
 # ---------------------------------------------------------------------------------------------------------
@@ -1281,13 +1426,14 @@ def run_subject(args):
     """Pool work item.  Returns a dict with counters, violations [(sig, desc, replay)], samples."""
     name, seed, thorough, budget = args[:4]
     ifields = args[4] if len(args) > 4 else None
+    hints = args[5] if len(args) > 5 else None
     rng = random.Random(zlib.crc32(name.encode()) * 7919 + seed)
     subj = subject_by_name(name)
     res = {'name': name, 'cases': 0, 'parsed': 0, 'unparsed': 0, 'refused': 0, 'ok': 0, 'normalised': 0, 'violations': [],
            'distinct': [], 'lens': {}, 'sample': None}
     seen_sig = set()
     try:
-        encs = encodings(subj, rng, thorough, budget, ifields)
+        encs = encodings(subj, rng, thorough, budget, ifields, hints)
     except Exception as e:       # generator trouble is an infrastructure error, not a violation
         res['infra'] = 'generator failed for %s: %s' % (name, exc_name(e))
         return res
